@@ -1099,6 +1099,29 @@ impl World {
                     guard += 1;
                 }
             }
+            "flushall" => {
+                // both wires stepped: deliver what is queued one item at a time (wire A first), settling
+                // after each, until both are empty
+                let mut guard = 0;
+                loop {
+                    let w = if self.wires[0].queued() > 0 {
+                        0
+                    } else if self.wires[1].queued() > 0 {
+                        1
+                    } else {
+                        break;
+                    };
+                    if guard >= 10_000 {
+                        break;
+                    }
+                    tr(format!("opd addrelease {} 1", side_name(w)));
+                    self.wires[w].add_release(1);
+                    self.settle().await;
+                    self.log_credits();
+                    tr(format!("settled pending={}", self.pending_list()));
+                    guard += 1;
+                }
+            }
             "recvmsg" => {
                 let (k, side, name) = (t[1].to_string(), side_idx(t[2]), t[3].to_string());
                 let key = format!("{}@{}", t[3], t[2]);
